@@ -98,6 +98,11 @@ func Reference(sc *Scenario, o *Outcome, idx int) ([]RefHop, *RefInfo) {
 				}
 			}
 			t = last
+			// Paris mode gives every probe its own sequence number, so a SYN-ACK / RST-ACK does carry a per-probe
+			// identifier (ack-1); the driver accepts it only while the probe it answers is still the last one sent
+			if sc.Variant == "tcp-paris" && tg.Form != "rst" && tg.CausedBy != last {
+				continue
+			}
 		}
 		if t < sc.MinTTL || t > sc.MaxTTL {
 			continue
